@@ -492,6 +492,8 @@ def interp(stmts, env, flags, remotes, where='main'):
                     if isinstance(part, list):
                         raise ModelFail('slice of a modification yields an array', ['Array value set to scalar node:'], F_MODSLICE)
                     v = srcval          # the slice is dropped, the whole raw value is cast onto the host
+                    if F_RESIDUE in flags and h.residue:
+                        v = residue_cast(h, v, flags)    # ... through whatever slice residue the host still carries
                     if vshape(v) != vshape(h.value):
                         raise ModelFail('unsliced value does not fit host', SIG_CAST, F_MODSLICE, payload=v, who=h.path)
                 else:
